@@ -243,6 +243,7 @@ func famStrings(L int, deadline time.Time) {
 var punct = []string{"{", "}", "[", "]", ",", ":", ";"}
 
 var literals = []string{"1", "-1", "+1", "1b", "1B", "1s", "1L", "1l", "1f", "1d", "1.5", "1.5f", "1.5D", ".5", "5.", "1e3", "1.5e-3",
+	"1e3f", "1e-3f", "1E+3d", "-3E-2F", "1e-5", // exponents without a decimal point: with a sign after the marker, with either suffix
 	"007", "-", "abc", `"abc"`, `'abc'`, `""`, `"a\"b"`, `'a\'b'`, "true", "B", "1I"}
 
 func joinTokens(toks []string) string {
@@ -261,7 +262,7 @@ func joinTokens(toks []string) string {
 }
 
 func famTokens(K int, deadline time.Time) {
-	if len(literals) != 28 {
+	if len(literals) != 33 {
 		engine.HarnessError("literal alphabet has %d entries", len(literals))
 	}
 	toks := append(append([]string{}, punct...), literals...)
